@@ -1561,23 +1561,25 @@ func c07PollerClosesOnVerdictOnly(w *World, r *Report) {
 			n++
 			key := fmt.Sprintf("close@%s#%d", ssaFuncKey(fn), n)
 			at := c.(ssa.Instruction)
-			isIdentity := func(v ssa.Value) bool {
-				b, ok := v.(*ssa.BinOp)
-				if !ok || b.Op != token.EQL || !isErrorType(b.X.Type()) || !isErrorType(b.Y.Type()) {
-					return false
-				}
-				for _, e := range exch {
-					for _, side := range []ssa.Value{b.X, b.Y} {
-						for _, root := range provenance(side, provOpts{}) {
-							if root == ssa.Value(e) {
-								return true
+			identity := func(op token.Token) func(v ssa.Value) bool {
+				return func(v ssa.Value) bool {
+					b, ok := v.(*ssa.BinOp)
+					if !ok || b.Op != op || !isErrorType(b.X.Type()) || !isErrorType(b.Y.Type()) {
+						return false
+					}
+					for _, e := range exch {
+						for _, side := range []ssa.Value{b.X, b.Y} {
+							for _, root := range provenance(side, provOpts{}) {
+								if root == ssa.Value(e) {
+									return true
+								}
 							}
 						}
 					}
+					return false
 				}
-				return false
 			}
-			ok := dominatedByCond(fn, at, isIdentity, true)
+			ok := dominatedByCond(fn, at, identity(token.EQL), true) || dominatedByCond(fn, at, identity(token.NEQ), false)
 			r.Check(ok, "R07.19", key, w.Pos(c.Pos()), "the close depends on an identity test of the exchange's error (a sentinel from the server, or the very same error value as the round before)",
 				"the background poller can close the connection without an identity test of the exchange's error: failures that are a fresh value every round (time-outs, refused sockets) add up to a close, and the chunk that was accepted and is waiting for retransmission is dropped — 'once the path stops losing, everything accepted arrives' no longer holds")
 		}
